@@ -9,7 +9,7 @@ fn main() {
     let col: Vec<String> = vec![String::from("a"), String::from("b"), String::from("c")];
     let it = col.con_iter();
     let c = it.next_chunk(2);
-    drop(it);
+    let r = it.next();
     drop(col);
-    if let Some(x) = c { let _n = x.values.count(); }
+    if let Some(x) = r { let _y = x.clone(); }
 }
